@@ -18,6 +18,7 @@ ASSUMPTIONS = [
     'derivative consistency: deriv/deriv2 compared with Richardson-extrapolated central differences of the callable itself (tolerance 1e-6 x scale), away from knots',
     'TableReader: rows are sorted by x before use; duplicate x values are outside the alphabet',
 ]
+RULE += '; plotToFile / plotPotentialObjectToFile called twice on one open file leave the rows of both calls; copy.copy / copy.deepcopy / pickle round trips of a table form are the same function inside and outside the data range'
 BOUNDS = {'quick': '466 x-subsets x 4 shapes (rotating representations); TableReader 64 row lists x 8 variants', 'thorough': 'all representations for every data set'}
 
 XL = [0.0, 0.3, 0.7, 1.0, 1.6, 2.1, 3.0, 4.2, 5.0]
@@ -140,6 +141,20 @@ def run_table(case):
         if (f(q), f.deriv(q), f.deriv2(q)) != (g(q), g.deriv(q), g.deriv2(q)):
             V(viol, 'xy-vs-x/y', 'at %r the xy and x/y forms of one data set differ: %r vs %r' % (q, (f(q), f.deriv(q), f.deriv2(q)), (g(q), g.deriv(q), g.deriv2(q))))
             return viol, n
+    # copies of the form (copy.copy, copy.deepcopy, a pickle round trip: what multiprocessing and caches on disk do) are the same function
+    import copy, pickle
+    outside = [math.nextafter(lo, -math.inf), lo - 0.5, lo - 100.0, math.nextafter(hi, math.inf), hi + 0.5, hi + 1e3]
+    for how, mk in (('copy.copy', copy.copy), ('copy.deepcopy', copy.deepcopy), ('pickle round trip', lambda o: pickle.loads(pickle.dumps(o)))):
+        try:
+            dup = mk(f)
+        except Exception:  # noqa  (an object that refuses to be copied this way says so; nothing is tabulated from it)
+            continue
+        for q in qs + outside:
+            n += 1
+            a3, b3 = (dup(q), dup.deriv(q), dup.deriv2(q)), (f(q), f.deriv(q), f.deriv2(q))
+            if a3 != b3:
+                V(viol, 'copy-differs', 'table %r: the %s of the form gives (value, deriv, deriv2) = %r at %r, the form itself %r' % (case['rep'], how, a3, q, b3))
+                return viol, n
     gap = min(b - a for a, b in zip(x[:-1], x[1:]))
     for a, b in zip(x[:-1], x[1:]):
         q = a + 0.37 * (b - a)
@@ -283,14 +298,26 @@ def run_plot(case):
     if ret == 'numpy-bounds':
         lo, hi = np.array([lo, hi])
     pot = ap.Potential('A', 'B', f)
-    if fn == 'plotToFile':
+    if fn in ('plotToFile', 'plotPotentialObjectToFile'):
         fp = io.StringIO()
-        ap.plotToFile(fp, lo, hi, f, steps)
+        call = (lambda a, b, n_: ap.plotToFile(fp, a, b, f, n_)) if fn == 'plotToFile' else (lambda a, b, n_: ap.plotPotentialObjectToFile(fp, a, b, pot, n_))
+        call(lo, hi, steps)
         text = fp.getvalue()
-    elif fn == 'plotPotentialObjectToFile':
-        fp = io.StringIO()
-        ap.plotPotentialObjectToFile(fp, lo, hi, pot, steps)
-        text = fp.getvalue()
+        # a second range written to the same open file (a fine grid followed by a coarse tail): the file then holds the rows of both calls
+        call(hi, hi + 2.0, 3)
+        both = fp.getvalue()
+        rows2 = [ln for ln in both.split('\n') if ln != '']
+        want2 = [float(hi) + i * 2.0 / 3 for i in range(3)]
+        ok2 = len(rows2) == steps + 3 and both.startswith(text)
+        if ok2:
+            try:
+                ok2 = all(len(ln.split()) == 2 and abs(float(ln.split()[0]) - w) <= 1e-9 * (abs(w) + 1.0) for ln, w in zip(rows2[steps:], want2))
+            except ValueError:
+                ok2 = False
+        if not ok2:
+            V(viol, 'plot-two-calls-one-file', '%s(steps=%d) followed by %s(steps=3) on the same file object leaves %d rows, last rows %r (expected %d rows, the last three at x = %r)'
+              % (fn, steps, fn, len(rows2), rows2[-4:], steps + 3, want2))
+            return viol, 1
     else:
         d = tempfile.mkdtemp(dir=R.scratch())
         path = os.path.join(d, 'plot.dat')
